@@ -773,7 +773,9 @@ def r07_4(rep: Report, idx: Index) -> None:
         if isinstance(st.value, ast.Name):
             ds = [a_.value for a_ in ast.walk(fn_) if isinstance(a_, ast.Assign) and len(a_.targets) == 1
                   and isinstance(a_.targets[0], ast.Name) and a_.targets[0].id == st.value.id]
-            return bool(ds) and all(has_ts(d) for d in ds)
+            # the text may also be a constant on other paths (None for "leave it out"): the conditions
+            # under which the statement is reached are judged below
+            return any(has_ts(d) for d in ds) and all(has_ts(d) or isinstance(d, ast.Constant) for d in ds)
         return False
     if b is None:
         n_emit = len([st for st in ast.walk(a) if is_emit(st, a)])
